@@ -37,8 +37,8 @@ def z_payload(data, **kw):
 def catalogue():
     c = []
 
-    def add(name, body, z=False, hs=None, eof=True):
-        c.append(dict(name=name, body=body, z=z, hs=hs, eof=eof))
+    def add(name, body, z=False, hs=None, eof=True, policy=None, ckw=None):
+        c.append(dict(name=name, body=body, z=z, hs=hs, eof=eof, policy=policy, ckw=ckw))
 
     add('2byte-char-split-over-fragments', F(1, b'\xc3', fin=0) + F(0, b'\xa9'))
     add('ping-between-fragments', F(1, b'a', fin=0) + F(9, b'') + F(0, b'b'))
@@ -94,6 +94,15 @@ def catalogue():
     add('z-garbage', F(1, b'\xff\xff\xff', rsv=4) + F(1, b'p'), z=True)
     add('z-invalid-utf8-inside', F(1, z_payload(b'\xc0\xaf'), rsv=4), z=True)
     add('z-rsv3', F(1, zp, rsv=5), z=True)
+    # the application takes its time over an event (the clock moves in handlers only, the bytes are all there): the
+    # Polls and automatic Pings that fall due meanwhile, and the timeouts, come out the same for every segmentation
+    slow = F(1, b'T1') + F(2, b'B') + F(9, b'pi') + F(1, b'T2') + F(10, b'') + F(1, b'T3') + F(8, refws.close_payload(1000, 'x'))
+    add('slow-text-handler-17s-poll-5', slow, policy={'text#0': [['sleep', 17.0]]}, ckw=dict(ping_rate=0, poll=5.0))
+    add('slow-text-handler-17s-poll-5-ping-4', slow, policy={'text#0': [['sleep', 17.0]], 'text#1': [['sleep', 9.0]]},
+        ckw=dict(ping_rate=4.0, poll=5.0))
+    add('slow-ping-handler-31s-poll-2', slow, policy={'ping': [['sleep', 31.0]], 'binary': [['sleep', 1.0]]},
+        ckw=dict(ping_rate=0, poll=2.0))
+    add('slow-ready-handler-12s', slow, policy={'ready': [['sleep', 12.0]]}, ckw=dict(ping_rate=5.0, poll=3.0, ping_timeout=60.0))
     # handshake outcomes followed by frames
     add('hs-rejected-200', F(1, b'x'), hs=dict(status=200, reason='OK'))
     add('hs-wrong-accept', F(1, b'x') + F(9, b''), hs=dict(accept='other_key'))
@@ -274,9 +283,13 @@ def observe(st, cuts):
     if st.get('eof', True):
         steps.append(('eof',))
     w = H.World(H.hs_server(steps, hs_spec(st)), cuts=cuts)
-    run = H.drive(w, ws_kwargs=dict(compress=True) if st['z'] else None, connect_kwargs=dict(ping_rate=0))
+    run = H.drive(w, ws_kwargs=dict(compress=True) if st['z'] else None, connect_kwargs=st.get('ckw') or dict(ping_rate=0),
+                  policy=H.TablePolicy(st['policy']) if st.get('policy') else None)
     reqs, frames, residue, errors = H.client_frames(w.conns[0])
-    obs = dict(events=run.normed(), end=run.end, exc=run.exc, frames=H.frame_sig(frames),
+    # the clock of these runs moves in the handlers only (every byte is there from the start), so where the Polls fall is
+    # decided by the bytes as well: they are compared for the streams with slow handlers (left out for the others,
+    # whose only Poll is the one behind Ready)
+    obs = dict(events=run.normed(drop=()) if st.get('policy') else run.normed(), end=run.end, exc=run.exc, frames=H.frame_sig(frames),
                residue=residue, nreq=len(reqs), closed=w.socks[0].closed)
     return obs, run, w
 
